@@ -296,6 +296,13 @@ MetaClauses(c, begin, e, stats, view, notes) ==
           \cup Cl(~(reqs \subseteq {p \in selected : Has(view, p) /\ At(view, p).t = "file" /\ At(view, p).hl = <<>>}),
                   "C19.contentRequestedForUnselectedEntry")
           \cup Cl(~ReqOK(reqs, proj, before, c.differ, merge), "C19.contentRequestSet")
+          \* conformance of the algorithm-layer model MetaStackMC (cases enumerated by TLC): the destination holds exactly
+          \* what the model's run forwards and the ids on the wire are the ids the model's run records.  Not a verdict of a
+          \* property (prefix MODEL): a disagreement without a violation makes the run inconclusive
+          \cup Cl("metaModel" \in DOMAIN begin
+                  /\ (PathsOf(after) # {begin.metaModel.fwd[k] : k \in DOMAIN begin.metaModel.fwd}
+                      \/ c.rReq # {begin.metaModel.ids[k] : k \in DOMAIN begin.metaModel.ids}),
+                  "MODEL.metaStackOutcomeDiffers")
           \* each selected entry / needed ancestor is applied once
           \cup (IF \E k1, k2 \in NonDelete(notes) : k1 # k2 /\ notes[k1].p = notes[k2].p
                 THEN {"C19.entryAppliedTwice", "C05.reportedTwice"} ELSE {})
